@@ -519,4 +519,52 @@ def gen_cases(cls, rng, tier, algos, whats, level=1, n_small=3, m_small=3, nrand
             m = None if r < 0.3 else ("each",) if r < 0.6 else ("filt", rng.randint(0, 5), rng.randint(2, 5))
             st.append(srch(algo, what, root, tr, tg, m))
         cases.append(Case("%sR%s%d" % (prefix, cls, i), cls, st, dict(kind="random-graph", nodes=g.n, edges=len(g.edges))))
+    # large structured graphs: long chains, deep trees, wide fans, grids, rings with chords, dense random graphs
+    if nrandom:
+        for i in range(max(6, nrandom // 5)):
+            g = large_graph(cls, rng, i)
+            st = g.steps()
+            far = [g.n - 1, g.n // 2, 0, rng.randrange(g.n)]
+            for j in range(14):
+                algo = rng.choice(algos)
+                order = algo in ("pre", "post")
+                ws = [w for w in whats if order == (w in ("nodes", "edges"))]
+                if not ws:
+                    continue
+                what = rng.choice(ws)
+                root = rng.choice([0, 0, g.n - 1, rng.randrange(g.n)])
+                tr = rng.random() < 0.4 and cls == "D"
+                tg = g.keys[rng.choice(far)] if what in ("find", "path") else None
+                r = rng.random()
+                m = None if r < 0.4 else ("each",) if r < 0.7 else ("filt", rng.randint(0, 5), rng.randint(3, 6))
+                st.append(srch(algo, what, root, tr, tg, m))
+            cases.append(Case("%sL%s%d" % (prefix, cls, i), cls, st, dict(kind="large-graph", nodes=g.n, edges=len(g.edges))))
     return cases
+
+
+def large_graph(cls, rng, i):
+    shape = ["chain", "tree", "fan", "grid", "ring", "dense"][i % 6]
+    edges = []
+    if shape == "chain":
+        n = rng.randint(80, 160)
+        edges = [(u, u + 1) for u in range(n - 1)] + [(rng.randrange(n), rng.randrange(n)) for _ in range(5)]
+    elif shape == "tree":
+        n = 127
+        edges = [((v - 1) // 2, v) for v in range(1, n)] + [(rng.randrange(n), rng.randrange(n)) for _ in range(6)]
+    elif shape == "fan":
+        n = rng.randint(60, 120)
+        edges = [(0, v) for v in range(1, n)] + [(v, 0) for v in range(1, n) if rng.random() < 0.3] + [(v, n - 1) for v in range(1, n - 1) if rng.random() < 0.5]
+    elif shape == "grid":
+        w = rng.randint(7, 10)
+        n = w * w
+        edges = [(r * w + c, r * w + c + 1) for r in range(w) for c in range(w - 1)] + [(r * w + c, (r + 1) * w + c) for r in range(w - 1) for c in range(w)]
+    elif shape == "ring":
+        n = rng.randint(60, 110)
+        edges = [(u, (u + 1) % n) for u in range(n)] + [(rng.randrange(n), rng.randrange(n)) for _ in range(12)]
+    else:
+        n = rng.randint(100, 160)
+        edges = [(rng.randrange(n), rng.randrange(n)) for _ in range(rng.randint(300, 600))]
+    rng.shuffle(edges) if shape in ("dense", "fan") else None
+    keys = rng.sample(range(1, 5000), n)
+    vals = [rng.randint(0, 9) for _ in range(n)]
+    return G(cls, keys, vals, [(u, v, 100 + j) for j, (u, v) in enumerate(edges)])
